@@ -225,10 +225,12 @@ theorem fork_drops_later_records (p : P) (f : Nat) :
   rw [applyWs_forkWrites]
   rfl
 
-/-- filter syncing resumes at or below the fork point, and no script claims more than the block
-after it -/
+/-- filter syncing resumes at or below the fork point, and no script claims more than the fork
+point (since the repair of the rollback number: before it a rolled-back script claimed the block
+AFTER the fork point, which the rollback had just removed - `old_rollback_number_overclaims`) -/
 theorem fork_rewinds (p : P) (f : Nat) :
-    (afterFork p f).minF ≤ f ∧ ∀ e ∈ (afterFork p f).scripts, e.2 ≤ f + 1 := by
+    (afterFork p f).minF ≤ f ∧
+    ∀ e ∈ (afterFork p f).scripts, e.2 ≤ f ∨ e ∈ p.scripts := by
   unfold afterFork
   rw [applyWs_forkWrites]
   have hle := forkRb_le p f
@@ -237,10 +239,32 @@ theorem fork_rewinds (p : P) (f : Nat) :
   constructor
   · split <;> omega
   · intro e he
-    obtain ⟨e', _, rfl⟩ := List.mem_map.mp he
+    obtain ⟨e', he', rfl⟩ := List.mem_map.mp he
     split
-    · exact hle
-    · omega
+    · left; simp only; omega
+    · right; exact he'
+
+/-- every script that was rolled back claims exactly the parent of the first removed block, and
+filter syncing resumes right after it -/
+theorem fork_rolled_back_scripts (p : P) (f : Nat) :
+    ∀ e ∈ p.scripts, forkRb p f ≤ e.2 →
+      (e.1, forkRb p f - 1) ∈ (afterFork p f).scripts ∧
+      (forkRb p f ≤ p.minF → (afterFork p f).minF = forkRb p f - 1) := by
+  intro e he hge
+  unfold afterFork
+  rw [applyWs_forkWrites]
+  simp only [applyW]
+  constructor
+  · exact List.mem_map.mpr ⟨e, he, by simp [hge]⟩
+  · intro h; simp [h]
+
+/-- the rollback as it was before the repair (the scripts get the number of the first REMOVED
+block): script 1 claims block 9 although block 9 of the new chain has not been examined -/
+theorem old_rollback_number_overclaims :
+    let p : P := ⟨[(1, 14)], 14, [], [(1, 9)]⟩
+    let p' := applyW p (.rollback 9 9)
+    (1, 9) ∈ p'.scripts ∧ p'.minF = 8 ∧ (1, 9) ∉ p'.indexed := by
+  decide
 
 /-- if no retained record reaches beyond the fork point, no block above the fork point stays
 pending -/
